@@ -84,6 +84,25 @@ TEXT = {
         "note": KERNEL + "the manager forgetting the peer after KillReq is the kill step of the manager model (C12); a wrong protocol string is a decode error (C06).",
         "technique": "Lean 4 proof (trace monitor proved sound for all scripts; case analysis of handle_handshake) + differential correspondence",
     },
+    "C15": {
+        "level": "Kernel-checked by mutual structural induction over values, lists and dictionaries of any nesting: decode(encode v ++ rest) = v followed by "
+                 "decode(rest), hence decode(encode v) = [v] for every well-formed value and every sequence (T1; full i64 range, arbitrary binary strings, empty "
+                 "containers, prefix keys), for the implementation's grammar and for the strict grammar (the output is well-formed bencode); integers are written in "
+                 "shortest decimal form, strings length-prefixed without leading zeros (natDec lemmas), keys in ascending order (T2); re-encoding the decoding of a "
+                 "canonical document reproduces it byte for byte (T3). decimal to_string/parse are modelled (natDec/decToNat) and compared with Rust on every run.",
+        "note": KERNEL + "HashMap modelled as an ascending duplicate-free association list (mkDict = repeated insert); Rust recursion depth (stack) outside.",
+        "technique": "Lean 4 proof (mutual structural induction; decimal and take_while lemmas; fuel-independence) + differential correspondence",
+    },
+    "C16": {
+        "level": "Kernel-checked for every byte string: the decoder model is a total function whose fuel (|input|+1) never runs out (T1), every input accepted by the "
+                 "strict grammar is accepted with the same values (T2), and whatever the decoder accepts the strict grammar accepts with the same values unless the input "
+                 "ends inside a list or dictionary (T3_soundness_partial). The full soundness statement is refuted for the current code by the witness 'l' "
+                 "(C16_soundness_full_refuted): recorded finding F1, reported as KNOWN-FINDING; any acceptance outside that class is a VIOLATION. Tied by exhaustive "
+                 "enumeration over a delimiter-rich alphabet plus truncations/mutations.",
+        "note": KERNEL + "partial by the recorded finding F1 (cannot be repaired: a pinned test depends on it); the strict grammar is the decoder with the EOF-closes-container "
+                "case removed, its relation to the encoder is C15.T2; stack overflow on deep nesting is outside the model.",
+        "technique": "Lean 4 proof (induction on fuel relating implementation and strict grammar; fuel sufficiency) + exhaustive small-alphabet differential run",
+    },
     "C20": {
         "level": "Kernel-checked for every script of frames, broadcasts and timer ticks: the observable trace of the connection-task model satisfies the "
                  "keep-alive predicate P20 (C20_trace): each tick writes exactly one KeepAlive unless KEEP_ALIVE_LIMIT ticks have passed since the last "
